@@ -96,6 +96,8 @@ def sem_compare(irgen, irsem):
                 r2 = irsem.run_main(m2, f.name, args, 3000)
             except Exception as ex:   # noqa: BLE001
                 return 'interpreter raises %s' % type(ex).__name__
+            r1 = r1.v if isinstance(r1, OkV) else r1
+            r2 = r2.v if isinstance(r2, OkV) else r2
             if r1 != r2:
                 return 'behaviour differs on %s%r: %r / %r' % (f.name, tuple(args), r1, r2)
         return None
@@ -105,12 +107,14 @@ def sem_compare(irgen, irsem):
 def classify(d):
     if d is None:
         return None
-    if "'rol'" in d or "'ror'" in d or 'NotImplementedError: ro' in d:
-        return 'rol-ror-not-read'
     if 'Lex fault' in d:
         return 'lex-fault'
     if 'NotImplementedError: inf' in d or 'NotImplementedError: nan' in d:
         return 'nonfinite-float-not-read'
+    if 'NotImplementedError' in d:
+        return 'rol-ror-not-read'
+    if 'behaviour differs' in d:
+        return 'behaviour-differs'
     if 'KeyError: \'memcpy\'' in d or "KeyError: 'memcpy'" in d:
         return 'copyblob-not-read'
     if 'KeyError' in d:
@@ -245,6 +249,7 @@ def float_tables(irimport, m, texts=()):
     lex = set(tr.values())
     for t in texts:
         lex.update(FLOAT_LEX.findall(t))
+        lex.update(re.findall(r'-?\d+\.\d+', t))
     tp = []
     for s in sorted(lex):
         try:
@@ -329,6 +334,67 @@ def mutate(rng, text):
     return '\n'.join(lines) + '\n'
 
 
+def correspond(ctx, flags, mods):
+    """run model and implementation on the same modules/texts; returns (bad indices, recs, cases)"""
+    import irimport
+    cfg = cfg_term(flags)
+    bad = []
+    cases, recs = [], []
+    dist = {'print_ok': 0, 'print_exc': 0, 'read_ok': 0, 'read_diag': 0, 'read_internal': 0, 'mutants': 0,
+            'mutant_read_ok': 0, 'skipped_nonascii': 0}
+    nontriv = 0
+    for idx, m in enumerate(mods):
+        term = irimport.module_to_coq(m)
+        try:
+            text = real_text(m)
+            pv = OkV(text.split('\n')[:-1])
+            dist['print_ok'] += 1
+        except Exception:   # noqa: BLE001
+            text, pv = None, Internal
+            dist['print_exc'] += 1
+        tr, tp = float_tables(irimport, m, [text] if text else [])
+        cases.append(('case_print %s %s (%s)' % (cfg, tab_term(tr), term), pv))
+        recs.append(('print', m, None))
+        if text is None or not printable_ascii(text):
+            dist['skipped_nonascii'] += text is not None
+            continue
+        cases.append(('case_lex %s %s %s' % (cfg, tab_term(tp), lines_term(text)), impl_lex(irimport, text)))
+        recs.append(('lex', m, text))
+        rv = impl_read(irimport, text)
+        dist['read_ok' if isinstance(rv, OkV) else 'read_diag' if rv is Diag else 'read_internal'] += 1
+        nontriv += 1 if (isinstance(rv, OkV) and m.functions) else 0
+        # texts that cannot be read: only the fact that reading fails is compared (the model lexes the whole
+        # text first, Python lexes lazily, so the FIRST fault reported can differ when a text has several)
+        cases.append(('okfail (case_read %s %s %s)' % (cfg, tab_term(tp), lines_term(text)),
+                      rv if isinstance(rv, OkV) else Internal))
+        recs.append(('read', m, text))
+        if idx % 3 == 0:
+            mt = mutate(ctx.rng, text)
+            if printable_ascii(mt):
+                _, tp2 = float_tables(irimport, None, [mt])
+                rv = impl_read(irimport, mt)
+                dist['mutants'] += 1
+                dist['mutant_read_ok'] += isinstance(rv, OkV)
+                # faulty texts: only the fact that reading fails is compared
+                cases.append(('okfail (case_read %s %s %s)' % (cfg, tab_term(tp2), lines_term(mt)),
+                              rv if isinstance(rv, OkV) else Internal))
+                recs.append(('read-mutant', m, mt))
+    ctx.cov['distinct_nontrivial'] += nontriv
+    ctx.cov['stages']['correspondence_distribution'] = dist
+    if ctx.build(['Model/IrText.vo'])[0]:
+        bad = ctx.run_cases('irtext', ['Spec.IRSyntax', 'Model.IrText'], cases, shard=60)
+        if bad:
+            for i in bad[:5]:
+                ctx.log('model/implementation disagree:', recs[i][0], 'module', recs[i][1].name)
+                if recs[i][2]:
+                    ctx.log(recs[i][2][:600])
+            ctx.failed_stages.append(('correspondence', 'Model.IrText disagrees with ppci.irutils on %d cases, first: %s of module %s'
+                                      % (len(bad), recs[bad[0]][0], recs[bad[0]][1].name)))
+
+
+    return bad, recs, cases
+
+
 def run(ctx):
     from vlib import ensure_repo_on_path
     ensure_repo_on_path()
@@ -365,60 +431,13 @@ def run(ctx):
 
     # ---- 2. correspondence on generated modules
     n = 150 if ctx.quick() else 1500
-    cases, recs = [], []
-    dist = {'print_ok': 0, 'print_exc': 0, 'read_ok': 0, 'read_diag': 0, 'read_internal': 0, 'mutants': 0,
-            'mutant_read_ok': 0, 'skipped_nonascii': 0}
     mods = [m for k in sorted(wit) for m in wit[k]]
     for k in range(n):
         feats = None if k % 4 else tuple(f for f in irgen.ALL_FEATURES if f != 'shuffle')
         mods.append(irgen.gen_module(ctx.rng, size=1 + k % 4, features=feats, name='m%d' % k))
-    nontriv = 0
-    for idx, m in enumerate(mods):
-        term = irimport.module_to_coq(m)
-        try:
-            text = real_text(m)
-            pv = OkV(text.split('\n')[:-1])
-            dist['print_ok'] += 1
-        except Exception:   # noqa: BLE001
-            text, pv = None, Internal
-            dist['print_exc'] += 1
-        tr, tp = float_tables(irimport, m, [text] if text else [])
-        cases.append(('case_print %s %s (%s)' % (cfg, tab_term(tr), term), pv))
-        recs.append(('print', m, None))
-        if text is None or not printable_ascii(text):
-            dist['skipped_nonascii'] += text is not None
-            continue
-        cases.append(('case_lex %s %s %s' % (cfg, tab_term(tp), lines_term(text)), impl_lex(irimport, text)))
-        recs.append(('lex', m, text))
-        rv = impl_read(irimport, text)
-        dist['read_ok' if isinstance(rv, OkV) else 'read_diag' if rv is Diag else 'read_internal'] += 1
-        nontriv += 1 if (isinstance(rv, OkV) and m.functions) else 0
-        cases.append(('case_read %s %s %s' % (cfg, tab_term(tp), lines_term(text)), rv))
-        recs.append(('read', m, text))
-        if idx % 3 == 0:
-            mt = mutate(ctx.rng, text)
-            if printable_ascii(mt):
-                _, tp2 = float_tables(irimport, None, [mt])
-                rv = impl_read(irimport, mt)
-                dist['mutants'] += 1
-                dist['mutant_read_ok'] += isinstance(rv, OkV)
-                # faulty texts: only the fact that reading fails is compared
-                cases.append(('match case_read %s %s %s with VOk v => VOk v | _ => VInternal end'
-                              % (cfg, tab_term(tp2), lines_term(mt)), rv if isinstance(rv, OkV) else Internal))
-                recs.append(('read-mutant', m, mt))
-    ctx.cov['distinct_nontrivial'] += nontriv
-    ctx.cov['stages']['correspondence_distribution'] = dist
     for m in mods[len(mods) - n::max(1, n // 5)][:5]:
         ctx.note_sample({'module': m.name, 'stats': m.stats()})
-    if ctx.build(['Model/IrText.vo'])[0]:
-        bad = ctx.run_cases('irtext', ['Spec.IRSyntax', 'Model.IrText'], cases, shard=60)
-        if bad:
-            for i in bad[:5]:
-                ctx.log('model/implementation disagree:', recs[i][0], 'module', recs[i][1].name)
-                if recs[i][2]:
-                    ctx.log(recs[i][2][:600])
-            ctx.failed_stages.append(('correspondence', 'Model.IrText disagrees with ppci.irutils on %d cases, first: %s of module %s'
-                                      % (len(bad), recs[bad[0]][0], recs[bad[0]][1].name)))
+    correspond(ctx, flags, mods)
 
     # ---- 3. search (independent oracle), deeper when something failed or tier is thorough
     search(ctx, deep=(not ctx.quick()) or bool(ctx.failed_stages))
@@ -459,8 +478,68 @@ def search(ctx, deep=False):
     ctx.cov['evaluations'] += n
 
 
+def forward_double_use(t):
+    """does some instruction of the canonical module t use a value defined LATER in print order (or itself) in two
+    operand slots / as a repeated call argument?  Those hit the ir.replace_use defects (known findings)."""
+    for f in t[3]:
+        defined = 0
+        for b in f[4]:
+            for i in b[2]:
+                if i[0] == 'phi':
+                    refs = [r for _, r in i[4]]
+                elif i[0] == 'callf':
+                    refs = [i[4]] + list(i[5])
+                elif i[0] == 'callp':
+                    refs = [i[1]] + list(i[2])
+                else:
+                    refs = [x for x in i[1:] if isinstance(x, tuple) and len(x) == 2 and x[0] in ('loc', 'glob', 'param')]
+                fwd = [r for r in refs if r[0] == 'loc' and r[1] > defined]
+                if len(fwd) != len(set(fwd)):
+                    return True
+                if i[0] in ('const', 'binop', 'unop', 'cast', 'load', 'alloc', 'addressof', 'literal', 'phi',
+                            'undefined', 'callf'):
+                    defined = i[1]
+    return False
+
+
+CORPUS_FEATURES = ('diamond', 'loop', 'selfloop', 'dupedge', 'alloca', 'volatile', 'globals', 'calls', 'extern', 'casts',
+                   'floats', 'literal', 'shuffle', 'ub', 'bigconst', 'ptrarith', 'rot', 'initref')
+
+
+def corpus_modules(irgen, irimport, count=60):
+    rng = random.Random(1500)
+    mods = []
+    k = 0
+    while len(mods) < count and k < 400:
+        feats = CORPUS_FEATURES if k % 2 else tuple(f for f in CORPUS_FEATURES if f != 'shuffle')
+        m = irgen.gen_module(rng, size=1 + k % 3, features=feats, name='c%d' % k)
+        k += 1
+        if not forward_double_use(irimport.module_to_py(m)):
+            mods.append(m)
+    return mods
+
+
 def regen(ctx):
-    pass
+    """Gen/c15_corpus.v: generated modules (fixed seed) with their float tables for the bounded theorem"""
+    from vlib import ensure_repo_on_path
+    ensure_repo_on_path()
+    import irgen
+    import irimport
+    mods = corpus_modules(irgen, irimport)
+    text = ['(* generated by tools/props/c15.py from tools/gen/irgen.py (seed 1500); do not edit *)',
+            'From PV Require Import Lib.Py Spec.IRSyntax.', 'From Coq Require Import String.', 'Open Scope Z_scope.',
+            'Definition corpus : list (list (Z * string) * modul) := [']
+    items = []
+    for m in mods:
+        tr, _ = float_tables(irimport, m)
+        # the same table serves as fr (bits -> repr) and fp (repr -> bits): float(repr(x)) == x
+        tab = [(b, s) for b, s in tr if irimport.float_bits(float(s)) == b]
+        items.append('(%s, %s)' % (tab_term(tab), irimport.module_to_coq(m)))
+    text.append(';\n'.join(items))
+    text.append('].')
+    ctx.write_gen('c15_corpus', '\n'.join(text) + '\n')
+    ctx.cov['stages']['gen_c15_corpus'] = {'modules': len(mods)}
+    return mods
 
 
 def replay_witness(k):
